@@ -144,6 +144,8 @@ def run(chk: Check) -> None:
     run_cfg_handler_edges(chk, ix)
     run_ctor_init_failure(chk, ix)
     run_bitmap_del(chk, ix)
+    run_self_receiver(chk, ix)
+    run_cast_failure(chk, ix)
     base = ix.cls(OP)
     ops = [c for c in base.all_subclasses() if c.module.name == "mypyc.ir.ops" and "sources" in c.methods and not any(isinstance(n, ast.Raise) for n in c.methods["sources"].node.body)]
     if len(ops) < 35:
@@ -799,3 +801,71 @@ def run_bitmap_del(chk: Check, ix) -> None:
         r13.ok(key, f.loc(ands[0]))
     else:
         r13.violation(key, f.loc(), "no IntOp.AND under a test of `undefines`: after `del x` the bit of x stays set")
+
+
+def run_self_receiver(chk: Check, ix) -> None:
+    """R06.14: attributes are credited to `self` only by ops whose receiver is `self`."""
+    from ..cfg import branch_conditions
+    r14 = chk.rule("R06.14", "the always-defined attribute analysis of __init__ (analysis/attrdefined.py) generates or kills attribute facts for an op only under a test that the op's receiver is the `self` register (`op.obj is self.self_reg`, `op.args[0] is self.self_reg`), in every arm of both visitors; and the self-leak analysis declares a call clean only after looking for `self` among its other arguments: an attribute credited to the wrong object is read without a definedness check (NULL dereference)", floor=5)
+    mod = ix.module("mypyc.analysis.attrdefined")
+    n = 0
+    for cname in ("AttributeMaybeDefinedVisitor", "AttributeMaybeUndefinedVisitor"):
+        c = mod.classes.get(cname)
+        if c is None or "visit_register_op" not in c.methods:
+            raise AnalysisError(f"attrdefined.{cname}.visit_register_op not found")
+        f = c.methods["visit_register_op"]
+        par = f.module.parents()
+        for rt in ast.walk(f.node):
+            if not (isinstance(rt, ast.Return) and isinstance(rt.value, ast.Tuple)):
+                continue
+            nonempty = [e for e in rt.value.elts if not (isinstance(e, ast.Call) and call_name(e) == "set" and not e.args)]
+            if not nonempty:
+                continue
+            n += 1
+            pos, neg = branch_conditions(par, f.node, rt, early_exits=True)
+            key = f"{cname}.visit_register_op: `return {norm(rt.value)[:60]}` is under a test that the receiver is self"
+            if any("self_reg" in norm(t) and " is " in norm(t) for t in pos):
+                r14.ok(key, f.loc(rt))
+            else:
+                r14.violation(key, f.loc(rt), f"the facts are produced when {[norm(t)[:60] for t in pos]}: nothing ties the op to the object being initialised, so `Base.__init__(other)` marks self's attributes as set")
+    sl = ix.func("mypyc.analysis.selfleaks.SelfLeakedVisitor.visit_call")
+    par = sl.module.parents()
+    for rt in ast.walk(sl.node):
+        if isinstance(rt, ast.Return) and norm(rt.value) == "CLEAN":
+            n += 1
+            pos, neg = branch_conditions(par, sl.node, rt, early_exits=True)
+            key = "SelfLeakedVisitor.visit_call: an __init__ call is clean only if self is not among its other arguments"
+            if any("self_reg" in norm(t) for t in pos):
+                r14.ok(key, sl.loc(rt))
+            else:
+                r14.violation(key, sl.loc(rt), "the call is declared clean on the strength of the callee's own leak flag alone: `O.__init__(o, self)` hands the half-initialised self to code that reads its attributes")
+    if n < 5:
+        raise AnalysisError(f"only {n} fact-producing returns found")
+
+
+def run_cast_failure(chk: Check, ix) -> None:
+    """R06.15: an op that steals its operand and can fail releases the operand on the failing path."""
+    r15 = chk.rule("R06.15", "Cast is the one IR op that both steals its operand (stolen() == [src] unless borrowed: the refcount pass emits no release for src) and can fail (error_kind ERR_MAGIC unless unchecked); on the failing path the result is NULL, so ownership of src has gone nowhere: either Cast does not steal, or the code emitted for the failing path (FunctionEmitterVisitor.visit_cast / Emitter.emit_cast_error_handler) releases src", floor=1)
+    ops = ix.module("mypyc.ir.ops")
+    cast = ops.classes.get("Cast")
+    if cast is None or "stolen" not in cast.methods:
+        raise AnalysisError("ops.Cast.stolen not found")
+    steals = any(isinstance(r, ast.Return) and isinstance(r.value, ast.List) and r.value.elts for r in ast.walk(cast.methods["stolen"].node))
+    can_fail = any(isinstance(a, ast.Assign) and norm(a.targets[0]).endswith("error_kind") and norm(a.value) != "ERR_NEVER" for a in ast.walk(cast.node))
+    key = "Cast: the stolen operand is released when the cast fails"
+    if not steals or not can_fail:
+        r15.ok(key, cast.methods["stolen"].loc(), "Cast no longer both steals and fails")
+        return
+    vc = ix.func("mypyc.codegen.emitfunc.FunctionEmitterVisitor.visit_cast")
+    eh = ix.func("mypyc.codegen.emit.Emitter.emit_cast_error_handler")
+    releases = False
+    for f in (vc, eh):
+        for c in ast.walk(f.node):
+            if isinstance(c, ast.Call) and call_name(c) in ("emit_dec_ref", "emit_xdec_ref"):
+                releases = True
+            if isinstance(c, ast.Constant) and isinstance(c.value, str) and re.search(r"\b(Py_X?DECREF|CPy_X?DECREF|CPy_DecRef)\b", c.value):
+                releases = True
+    if releases:
+        r15.ok(key, vc.loc(), "the failing path of visit_cast / emit_cast_error_handler emits a release")
+    else:
+        r15.violation(key, vc.loc(), "Cast.stolen() hands src to the op, and neither visit_cast nor emit_cast_error_handler emits a dec-ref on the failing path: every cast that fails at run time leaks its operand")
